@@ -6,6 +6,7 @@ mod deposits;
 mod select;
 mod builder;
 mod address;
+mod sendall;
 
 fn main() {
     let argv: Vec<String> = std::env::args().collect();
@@ -22,6 +23,7 @@ fn main() {
         "select" => select::main(&a),
         "builder" => builder::main(&a),
         "address" => address::main(&a),
+        "sendall" => sendall::main(&a),
         d => {
             eprintln!("unknown driver {}", d);
             std::process::exit(2);
